@@ -590,6 +590,57 @@ def e_other_readers(ctx, bdir):
     ctx.obligation(bad == 0, "E:g3 and adjustment-results readers on mutated inputs")
 
 
+def e_g3_reflow(ctx, bdir):
+    """formatting independence of the table-driven DataParser: the same g3 document with a line break after every tag and around
+    every text node (gama-g3 feeds its parser line by line, the state is inspected after every chunk) must get the same verdict"""
+    rng = ctx.rng
+    g3 = os.path.join(bdir, "gama-g3")
+    files = [f for f in sorted(glob.glob(os.path.join(vlib.REPO, "tests/gama-g3/input/*.xml"))) if 0 < os.path.getsize(f) < 200000]
+    docs = [open(f, "rb").read() for f in files]
+    # the ellipsoid given by its axes, by the flattening and by name; constants in every documented form
+    base = b'<?xml version="1.0" ?>\n<gnu-gama-data xmlns="http://www.gnu.org/software/gama/gnu-gama-data">\n<g3-model>\n<constants>\n' \
+           b'<apriori-standard-deviation>10</apriori-standard-deviation> <confidence-level>0.95</confidence-level> <angular-units-gons/>\n%s\n</constants>\n' \
+           b'<fixed><n/><e/><u/></fixed>\n<point><id>A</id><x>3980000</x><y>1000000</y><z>4860000</z></point>\n' \
+           b'<free><n/><e/><u/></free>\n<point><id>B</id><x>3980100</x><y>1000050</y><z>4860020</z></point>\n' \
+           b'<obs><vector><from>A</from><to>B</to><dx>100.001</dx><dy>50.002</dy><dz>20.003</dz></vector>\n' \
+           b'<cov-mat><dim>3</dim><band>0</band><flt>1</flt><flt>1</flt><flt>1</flt></cov-mat></obs>\n' \
+           b'<obs><distance><from>A</from><to>B</to><val>113.58</val><stdev>5</stdev></distance></obs>\n</g3-model>\n</gnu-gama-data>\n'
+    for ell in (b"<ellipsoid><id>wgs84</id></ellipsoid>", b"<ellipsoid><a>6378137</a><b>6356752.31425</b></ellipsoid>",
+                b"<ellipsoid><a>6378137</a><inv-f>298.257223563</inv-f></ellipsoid>", b"<ellipsoid></ellipsoid>", b""):
+        docs.append(base % ell)
+    bad = 0
+    for k, d in enumerate(docs):
+        variants = {"original": d, "one-tag-per-line": re.sub(rb">\s*<", b">\n<", d), "text-on-own-lines": re.sub(rb">([^<>\n]+)<", rb">\n\1\n<", re.sub(rb">\s*<", b">\n<", d)),
+                    "single-line": re.sub(rb"\s*\n\s*", b" ", d)}
+        res = {}
+        for name, v in variants.items():
+            inp = os.path.join(ctx.scratch, "c11r_%d_%s.xml" % (k, name))
+            out = inp + ".out"
+            open(inp, "wb").write(v)
+            rc, so, se = run_tool([g3, inp, out])
+            why = classify(rc, so, se, "gama-g3")
+            located = not re.search(r"on line 0 ", so + se)
+            res[name] = (rc, os.path.exists(out) and os.path.getsize(out) > 0, why, located, (so + se).strip()[-200:])
+            ctx.count(("g3-reflow", v[:3000], name), nontrivial=True)
+            for f in (inp, out):
+                if os.path.exists(f):
+                    os.remove(f)
+        r0 = res["original"]
+        for name, r in res.items():
+            why = r[2]
+            if why is None and (r[0] != 0) != (r0[0] != 0):
+                why = "gama-g3 %s the document when it is written %s but %s the original layout: %s" % (
+                    "refuses" if r[0] else "accepts", name, "accepts" if not r0[0] else "refuses", (r[4] or r0[4]))
+            if why is None and r[0] != 0 and not r[3]:
+                why = "gama-g3 refuses the document (%s) without a located diagnostic: %s" % (name, r[4])
+            if why:
+                bad += 1
+                if bad <= 3:
+                    ctx.violation({"kind": "E:g3-layout", "input": variants[name].decode("latin-1"), "layout": name, "results": {n: list(x) for n, x in res.items()}}, why)
+                break
+    ctx.obligation(bad == 0, "E:g3 layout independence")
+
+
 def run(ctx):
     sys.path.insert(0, os.path.join(vlib.VERIF, "tools"))
     import gkf_translate
@@ -606,6 +657,21 @@ def run(ctx):
         ctx.log("translator: %s" % e)
         ctx.translator_error = str(e)
     ctx.obligation(translated, "translator gkfparser.cpp -> GkfGen.v")
+    import dp_translate
+    try:
+        t2 = dp_translate.translate(vlib.REPO)
+        txt2 = dp_translate.emit(t2)
+        p2 = os.path.join(vlib.COQ, "DpGen.v")
+        if not os.path.exists(p2) or open(p2).read() != txt2:
+            open(p2, "w").write(txt2)
+        ctx.checker_cmds.append("python3 tools/dp_translate.py /repo coq/DpGen.v")
+        ctx.extra["dataparser_tables"] = {"states": len(t2["states"]), "tags": len(t2["tags"]), "transitions": len(t2["next"]), "init_calls": t2["ninit"],
+                                          "init_into_error": t2["enters_error"], "after_overwritten": t2["overwritten"][:10]}
+        ctx.obligation(True, "translator dataparser*.cpp -> DpGen.v")
+    except gkf_translate.TranslateError as e:
+        translated = False
+        ctx.obligation(False, "translator dataparser*.cpp -> DpGen.v")
+        ctx.translator_error = "DataParser: " + str(e)
     proofs_ok = ctx.check_proofs(extra_files=["GkfRun"], report=False) if translated else False
     exe = vlib.compile_harness("harness/gkf.cpp", link_gama=True, sanitize=True)
     v0 = ctx.violations
@@ -616,6 +682,7 @@ def run(ctx):
     bdir = vlib.build_repo(sanitize=True)
     e_gama_local(ctx, bdir)
     e_other_readers(ctx, bdir)
+    e_g3_reflow(ctx, bdir)
     if not translated or not proofs_ok:
         what = ("translator: " + getattr(ctx, "translator_error", "?")) if not translated else getattr(ctx, "broken_theorem", "?")
         if ctx.violations == v0:
